@@ -1,9 +1,13 @@
 package main
 
 import (
+	"bytes"
 	"fmt"
+	"io"
+	"net/http"
 	"sort"
 	"strconv"
+	"strings"
 	"time"
 
 	"github.com/iden3/go-schema-processor/v2/merklize"
@@ -449,6 +453,289 @@ func selfReferencedWithFields(ds *ld.RDFDataset) string {
 	return ""
 }
 
+// ---------- one loader used for several merklizations while the context is revised ----------
+//
+// The property speaks of "the document's facts under its fully expanded property IRIs": the expansion is given by the context
+// the document names. When that context is fetched by URL through a loader that lives longer than one call (the loader given
+// with WithDocumentLoader, Merklizer.Options().DocumentLoader), the statements are those under the context as the host serves
+// it at the time of the call - or, while the loader holds a copy the host declared fresh for that long, under that copy.
+// Under no other revision: not one whose copy has expired, not one that was never storable.
+
+// ctxHost plays the host of one context URL (an in-process http.RoundTripper).
+type ctxHost struct {
+	url    string
+	bodies [][]byte // the revisions of the context document
+	rev    int      // the one served now
+	policy string   // cache headers it is served with (c19.go: policyHeaders)
+	hits   int
+}
+
+func (h *ctxHost) RoundTrip(req *http.Request) (*http.Response, error) {
+	if req.URL.String() != h.url {
+		return &http.Response{StatusCode: 404, Body: io.NopCloser(strings.NewReader("not found")), Header: http.Header{}, Request: req}, nil
+	}
+	h.hits++
+	return &http.Response{StatusCode: 200, Body: io.NopCloser(bytes.NewReader(h.bodies[h.rev])), Header: policyHeaders(h.policy, time.Now()), Request: req}, nil
+}
+
+// ctxRevisions: several revisions of one schema. The term and type names stay (documents are written with them), what they
+// expand to changes: property IRIs, type IRIs, and the datatype of string-valued terms. Revision 0 is the schema as generated.
+type ctxRevisions struct {
+	terms   []*Term
+	types   []*TypeDef
+	termIRI [][]string // [revision][term]
+	termDT  [][]string
+	typeIRI [][]string
+	docs    []*ANode // documents whose literals follow the datatype of their term
+}
+
+var plainDatatypes = []string{xsdNS + "string", xsdNS + "token", xsdNS + "anyURI", "urn:ex:types#custom", "urn:ex:types#other", "https://schema.org/Text"}
+
+// a term whose values are plain strings whatever they look like (litFor's last branch)
+func plainStringTerm(t *Term) bool {
+	if t.Kind != "lit" || t.DT == "" {
+		return false
+	}
+	switch strings.TrimPrefix(t.DT, xsdNS) {
+	case "integer", "nonNegativeInteger", "positiveInteger", "negativeInteger", "nonPositiveInteger", "boolean", "dateTime", "double":
+		return false
+	}
+	return true
+}
+
+func newCtxRevisions(g *DocGen, r *Rng, n int, must *Term) *ctxRevisions {
+	cr := &ctxRevisions{}
+	var tds []*TypeDef
+	g.allTypes(g.sch.Root, &tds)
+	for _, td := range tds {
+		cr.types = append(cr.types, td)
+		cr.terms = append(cr.terms, td.Terms...)
+	}
+	for k := 0; k < n; k++ {
+		ti, td, yi := make([]string, len(cr.terms)), make([]string, len(cr.terms)), make([]string, len(cr.types))
+		all := r.Bool()
+		for i, t := range cr.terms {
+			ti[i], td[i] = t.IRI, t.DT
+			if k == 0 {
+				continue
+			}
+			if all || t == must || r.Chance(55) {
+				ti[i] = fmt.Sprintf("%s-r%d", t.IRI, k)
+				if r.Chance(25) {
+					ti[i] = fmt.Sprintf("https://schema.example/r%d/%s", k, t.Name)
+				}
+			}
+			if plainStringTerm(t) && r.Chance(40) {
+				td[i] = r.Pick(plainDatatypes)
+			}
+		}
+		for i, y := range cr.types {
+			yi[i] = y.IRI
+			if k > 0 && r.Chance(40) {
+				yi[i] = fmt.Sprintf("%s-r%d", y.IRI, k)
+			}
+		}
+		cr.termIRI, cr.termDT, cr.typeIRI = append(cr.termIRI, ti), append(cr.termDT, td), append(cr.typeIRI, yi)
+	}
+	return cr
+}
+
+// apply makes revision k the schema's (and the registered documents') current meaning
+func (cr *ctxRevisions) apply(k int) {
+	for i, t := range cr.terms {
+		t.IRI, t.DT = cr.termIRI[k][i], cr.termDT[k][i]
+	}
+	for i, y := range cr.types {
+		y.IRI = cr.typeIRI[k][i]
+	}
+	var walk func(n *ANode)
+	walk = func(n *ANode) {
+		for _, f := range n.Fields {
+			for _, v := range f.Vals {
+				if v.Lit != nil && plainStringTerm(f.Term) {
+					v.Lit.DT = f.Term.DT
+				}
+				if v.Node != nil {
+					walk(v.Node)
+				}
+			}
+		}
+	}
+	for _, d := range cr.docs {
+		walk(d)
+	}
+}
+
+func emitSharedLoaderHistory(out *Out, r *Rng) {
+	g := NewDocGen(r, 1+r.Intn(2))
+	root := g.node(g.sch.Root, 0, r.Bool())
+	nrev := 2 + r.Intn(3)
+	cr := newCtxRevisions(g, r, nrev, root.Fields[r.Intn(len(root.Fields))].Term)
+	cr.docs = append(cr.docs, root)
+	host := &ctxHost{url: g.sch.URL}
+	for k := 0; k < nrev; k++ {
+		cr.apply(k)
+		host.bodies = append(host.bodies, g.ContextDoc())
+	}
+	defer cr.apply(0)
+	hs := []HSpec{hPoseidon(), hPoseidon(), hSalted(), hShifted()}[r.Intn(4)]
+	cfg := loaderCfg{cacheMode: "memory"}
+	if r.Chance(65) {
+		cfg.cacheMode = "virtual"
+	}
+	loader, clock := loaderWithCtx(cfg, host)
+	policies := []string{"max-age=0", "max-age=0", "max-age=60", "max-age=3600", "no-store", "none", "expires-10", "expires+3600", "expires-epoch", "private", "max-age+no-store"}
+	host.policy = r.Pick(policies)
+	host.rev = r.Intn(nrev)
+
+	revJ := make([]any, nrev)
+	for k := range revJ {
+		revJ[k] = string(host.bodies[k])
+	}
+	c := Case{Op: "none", Tags: []string{"shared-loader-history", "cache:" + cfg.cacheMode, "h:" + hs.Name}, NT: true}
+	var stepsJ, implJ []any
+	c.In = J{"h": hs.JSON, "url": host.url, "cache": cfg.cacheMode, "revisions": revJ, "steps": &stepsJ}
+	setCurrent(out, &c)
+
+	// what a cache that keeps to the host's headers holds: nothing, or revision heldRev stored at heldAt (seconds of the virtual
+	// clock) with a lifetime of heldLife seconds
+	held, heldRev, heldAt, heldLife, now := false, 0, 0, 0, 0
+	var why []string
+	var prev *merklize.Merklizer
+	revised, refetched := false, false
+	nsteps := 2 + r.Intn(4)
+	for s := 0; s < nsteps; s++ {
+		st := J{}
+		if s > 0 {
+			if r.Chance(65) {
+				host.rev = (host.rev + 1 + r.Intn(nrev-1)) % nrev
+				revised = true
+				if r.Chance(50) {
+					host.policy = r.Pick(policies)
+				}
+			}
+			if clock != nil && r.Chance(55) {
+				n := []int{1, 5, 20, 300, 10000}[r.Intn(5)]
+				clock.tick(n)
+				now += n
+				st["tick"] = n
+			}
+			if r.Chance(45) {
+				root = g.node(g.sch.Root, 0, r.Bool())
+				cr.docs = append(cr.docs, root)
+			}
+		}
+		p := randomPresentation(r)
+		p.ctxMode = 1 + r.Intn(2)
+		doc := g.Render(root, p)
+		use := loader
+		if prev != nil && r.Chance(35) {
+			// the loader as an earlier merklizer hands it out: the same object
+			use = prev.Options().DocumentLoader
+			st["loader"] = "Options().DocumentLoader of the previous merklizer"
+		}
+		st["serve"], st["policy"], st["doc"] = host.rev, host.policy, string(doc)
+		stepsJ = append(stepsJ, st)
+
+		// the revisions a correct run may have expanded the document with
+		// (a copy that is about to expire may be found expired when the machine is slow: then the current revision is fetched,
+		// which is among the accepted ones, and the request counter says which way it went)
+		fresh := held && heldLife > 0 && heldAt+heldLife-now > 0
+		accept := []int{host.rev}
+		if fresh && heldRev != host.rev {
+			accept = []int{heldRev, host.rev}
+		}
+		hitsBefore := host.hits
+		run := runMerklize(doc, hs, use, true)
+		if run.Err != nil {
+			implJ = append(implJ, errJ(run.Err))
+			why = append(why, fmt.Sprintf("use %d of the loader: a well-formed tree-shaped document was not merklized: %s: %s", s+1, errClass(run.Err), trunc(run.Err.Error(), 200)))
+			break
+		}
+		prev = run.Mz
+		var ents []merklize.RDFEntry
+		for _, e := range run.Mz.VerifEntries() {
+			ents = append(ents, e)
+		}
+		judge := func(k int) []string {
+			cr.apply(k)
+			var facts []Fact
+			factsOf(root, nil, nil, &facts)
+			var w []string
+			if len(ents) != len(facts) {
+				w = append(w, fmt.Sprintf("%d entries, the document has %d statements", len(ents), len(facts)))
+			}
+			factsPredicate(ents, facts, &w)
+			sort.Strings(w)
+			return w
+		}
+		got := -1
+		for _, k := range accept {
+			if len(judge(k)) == 0 {
+				got = k
+				break
+			}
+		}
+		if got < 0 {
+			w := judge(host.rev)
+			if len(w) > 2 {
+				w = w[:2]
+			}
+			state := "the loader holds no copy of it"
+			if held {
+				state = fmt.Sprintf("the copy the loader holds (revision %d, stored %d s ago with a lifetime of %d s) ", heldRev, now-heldAt, heldLife)
+				if heldLife <= 0 {
+					state = fmt.Sprintf("the copy the loader holds (revision %d, stored %d s ago, stale on arrival) ", heldRev, now-heldAt)
+				}
+				if fresh {
+					state += "is fresh, but the leaves are not the statements under that one either"
+				} else {
+					state += "has expired"
+				}
+			}
+			as := ""
+			for k := 0; k < nrev; k++ {
+				if k != host.rev && len(judge(k)) == 0 {
+					as = fmt.Sprintf("; they are the statements under revision %d, which the host served earlier", k)
+					break
+				}
+			}
+			why = append(why, fmt.Sprintf("use %d of one document loader: the host serves revision %d of the context %s (%s), %s; the leaves are not the document's statements under its property IRIs: %s%s",
+				s+1, host.rev, host.url, host.policy, state, strings.Join(w, "; "), as))
+			implJ = append(implJ, J{"ok": len(ents), "rev": "?"})
+			break
+		}
+		implJ = append(implJ, J{"ok": len(ents), "rev": got})
+		if leaves := countLeaves(run.MT); leaves != len(ents) {
+			why = append(why, fmt.Sprintf("use %d of the loader: the tree has %d leaves for %d entries", s+1, leaves, len(ents)))
+		}
+		// a loader that has never been used, given the same revision, must build the same tree
+		cr.apply(got)
+		if ref := runMerklize(doc, hs, &mapLoader{docs: map[string][]byte{host.url: host.bodies[got]}}, true); ref.Err != nil || ref.Mz.Root().BigInt().Cmp(run.Mz.Root().BigInt()) != 0 {
+			why = append(why, fmt.Sprintf("use %d of the loader: root differs from the root a never-used loader gives for the same document under the same revision %d of the context (%v)", s+1, got, ref.Err))
+		}
+		// follow the cache: a request was made unless a fresh copy was used
+		if !(fresh && got == heldRev && host.hits == hitsBefore) {
+			refetched = refetched || held
+			if storable, life := policyOracle(host.policy); storable {
+				held, heldRev, heldAt, heldLife = true, host.rev, now, life
+			}
+		}
+	}
+	cr.apply(0)
+	if revised {
+		c.Tags = append(c.Tags, "context-revised-between-uses")
+	}
+	if refetched {
+		c.Tags = append(c.Tags, "stored-copy-replaced")
+	}
+	c.In = J{"h": hs.JSON, "url": host.url, "cache": cfg.cacheMode, "revisions": revJ, "steps": stepsJ}
+	c.Impl = implJ
+	c.Prop = propOf(why)
+	setCurrent(nil, nil)
+	out.Emit(c)
+}
+
 func genC01(out *Out, r *Rng, tier string, n int, shard int) {
 	for i := 0; i < n; i++ {
 		g := NewDocGen(r, 1+r.Intn(3))
@@ -461,6 +748,10 @@ func genC01(out *Out, r *Rng, tier string, n int, shard int) {
 		}
 		if i%4 == 1 {
 			emitUnsafeModeDoc(out, r)
+		}
+		if i%4 == 3 {
+			// one document loader, several merklizations, the context revised on its host in between
+			emitSharedLoaderHistory(out, r)
 		}
 		for k := 0; k < 6; k++ {
 			emitDataset(out, r, pickDocHasher(r))
